@@ -217,6 +217,27 @@ impl<F: Flavour> World<F> {
                 Obs::Lists { out, inn }
             }
             Op::Search { root, spec } => search_obs::<F>(&self.nodes[*root], spec),
+            Op::GView { kind } => {
+                let Some(g) = self.graph.as_ref() else { return Obs::Unsupported };
+                let keys = |v: Vec<F::Node>| {
+                    let mut k: Vec<usize> = v.iter().map(|n| F::key(n)).collect();
+                    k.sort();
+                    Obs::Keys(k)
+                };
+                match kind % 9 {
+                    0 => F::g_roots(g).map(keys).unwrap_or(Obs::Unsupported),
+                    1 => F::g_leaves(g).map(keys).unwrap_or(Obs::Unsupported),
+                    2 => keys(F::g_orphans(g)),
+                    3 => keys(F::g_to_vec(g)),
+                    4 => Obs::Num(F::g_to_dot(g).len()),
+                    5 => F::g_scc(g).map(|c| Obs::Num(c.len())).unwrap_or(Obs::Unsupported),
+                    6 => Obs::Num(F::g_ser(g, crate::flavour::Wire::Json).map(|b| b.len()).unwrap_or(0)),
+                    7 => F::g_to_dot_attr(g, crate::flavour::DotSpec { g: true, nmask: 0x5555, emask: 0x3333 })
+                        .map(|t| Obs::Num(t.len()))
+                        .unwrap_or(Obs::Unsupported),
+                    _ => Obs::Num(F::g_iter(g).len()),
+                }
+            }
         }
     }
 
